@@ -1652,3 +1652,45 @@ def split_insert_rule(db, chk, cfg, rule="SPLIT.no-duplicate"):
                               "the crossing point)" % ("inserts" if inserted else "does not insert", "==" if eq_prev else "!=", "==" if eq_nn else "!="),
                               where(node), cfg=cfg)
     return n
+
+
+# ---------------------------------------------------------------------------
+# Point equality means "same position" (C13: duplicate / closing vertices; C03)
+# ---------------------------------------------------------------------------
+
+def point_equality_table(db, chk, cfg, rule="T.point-equality"):
+    """The engine uses `==` / `!=` on points to mean "same (x, y)": AddPaths_ drops repeated and closing vertices with it, AddOutPt,
+    CleanCollinear and the path builders suppress repeated output vertices with it.  operator== of Point<int64_t> and Point<double>
+    is interpreted on all equal/different combinations of x, y (and z in USINGZ builds): true iff x and y agree - z must not matter -
+    and operator!= is its negation."""
+    n = 0
+    found = 0
+    for f in db.funcs:
+        if f.name not in ("operator==", "operator!=") or f.body is None or f.is_pattern or len(f.params) != 2:
+            continue
+        if "Point<" not in qt(f.params[0]) and "Point<" not in dqt(f.params[0]):
+            continue
+        found += 1
+        a, b = f.params[0]["name"], f.params[1]["name"]
+        for dx in (0, 1):
+            for dy in (0, 1):
+                for dz in (0, 1):
+                    env = {a + ".x": 5, a + ".y": 7, a + ".z": 9, b + ".x": 5 + dx, b + ".y": 7 + dy, b + ".z": 9 + dz}
+                    try:
+                        got = bool(Interp(db, env).run_function(f))
+                    except Unsupported as e:
+                        raise AnalysisBroken("cannot interpret %s: %s" % (f.qual, e))
+                    want = (dx == 0 and dy == 0)
+                    if f.name == "operator!=":
+                        want = not want
+                    n += 1
+                    chk.instance(rule, {"function": f.qual, "sig": f.sig[:50], "x_differs": bool(dx), "y_differs": bool(dy), "z_differs": bool(dz), "result": got,
+                                        "cfg": cfg} if n % 4 == 1 else None, ok=(got == want))
+                    if got != want:
+                        chk.violation(rule, f.qual, "%s|dx%d dy%d dz%d" % (f.sig[:30], dx, dy, dz),
+                                      "%s returns %s for points whose x %s, y %s and z %s: point equality must mean 'same x and y' (a vertex repeated with "
+                                      "another z is still a repeated vertex)" % (f.name, got, "differ" if dx else "agree", "differ" if dy else "agree",
+                                                                                 "differ" if dz else "agree"), f.where, cfg=cfg)
+    if found < 4:
+        raise AnalysisBroken("operator== / operator!= of Point<int64_t> and Point<double> not all found (%d)" % found)
+    return n
